@@ -192,12 +192,14 @@ type c11Srv struct {
 	IPF       *c11IPF   `json:"ipf,omitempty"`
 	Rules     []c11Rule `json:"rules"`
 	Edits     []string  `json:"edits,omitempty"` // how this generation was derived from the previous one (documentation only)
+	KA        int       `json:"ka_s,omitempty"`  // mode rt: keepAliveTimeout in seconds (0: default); a change makes the runtime restart its net/http server
 }
 
 type c11MuxSc struct {
 	Gens    []c11Srv    `json:"gens"`    // Gens[0] is loaded before traffic starts, the updater reloads the others in order
 	Missing []string    `json:"missing"` // backends the MuxMapper does not know (503)
 	Clients []c11Client `json:"clients"`
+	Down    *c11RTDown  `json:"down,omitempty"` // mode rt: listen-failure history (c11_rt_test.go)
 }
 
 var (
@@ -507,6 +509,9 @@ func c11SrvText(name string, s *c11Srv) string {
 		"cacheSize": s.CacheSize, "xForwardedFor": s.XFF}
 	if s.MaxBody != 0 {
 		m["clientMaxBodySize"] = s.MaxBody
+	}
+	if s.KA > 0 {
+		m["keepAliveTimeout"] = fmt.Sprintf("%ds", s.KA)
 	}
 	if s.IPF != nil {
 		m["ipFilter"] = c11IPFMap(s.IPF)
@@ -1046,7 +1051,7 @@ func TestVerifC11(t *testing.T) {
 		Exec:          c11Exec,
 		MaxSteps:      40000,
 		DeadlockClass: "C11.deadlock",
-		Rule: "a scenario is one of four modes (mux 35%, pipe 35%, tc 15%, rt 15%; rt = the mux scenario shape against a LISTENING HTTPServer runtime over the simulated network: raw HTTP/1.1 clients, only hot fields change, no dial may be refused and no connection may end without a response). mux: chain of 2-5 HTTPServer specs derived from one another by 0-3 edits (rules, rewrite targets, xForwardedFor, body limits, IP filters at three levels, cache size, identical re-apply), " +
+		Rule: "a scenario is one of four modes (mux 35%, pipe 35%, tc 15%, rt 15%; rt = the mux scenario shape against a LISTENING HTTPServer runtime over the simulated network: raw HTTP/1.1 clients, only hot fields change, no dial may be refused and no connection may end without a response; 40% of the rt scenarios contain a listen-failure history: the first bind or the bind of a restart-requiring update (keepAliveTimeout) fails with address-in-use, 1-3 hot updates arrive while the runtime is in state failed, the port becomes free, the 10 s checkFailed ticker or a further restart-requiring update brings the server back, clients retry refused dials every 1.3 s and the requests answered after the recovery are judged by the same generation window). mux: chain of 2-5 HTTPServer specs derived from one another by 0-3 edits (rules, rewrite targets, xForwardedFor, body limits, IP filters at three levels, cache size, identical re-apply), " +
 			"one updater task calling mux.reload, 1-4 client tasks with 4-24 requests whose backend handlers park; pipe: one filter kind under test (RateLimiter, Proxy, Mock, Request/ResponseAdaptor, Validator, Fallback, CORSAdaptor, Request/ResponseBuilder, HeaderToJSON, CertExtractor) in a real Pipeline, " +
 			"2-4 generations (Init, then Inherit which closes the previous one; 15% of the updates keep the NAME of the filter under test and change its KIND), requests park before / inside / after the filter under test while the updater inherits; " +
 			"65% of the Proxy scenarios are resilience-observable (Proxy variants 6/7: main pool and optional candidate pool, each with retry policy maxAttempts 2-3 / none, circuit breaker none / ample / tight, timeout 1h / none, failureCodes [503] / none, 3 server sets; updates keep / add / remove / change each of them or change something else while they stay; " +
@@ -1054,7 +1059,7 @@ func TestVerifC11(t *testing.T) {
 			"non-trivial = a request overlapped an update that changes its answer, or ran on a generation that had already been inherited from / closed, or started after an update that changes its answer; distinct = distinct (specs, ordered request/answer history)",
 		Real: []string{"pkg/object/httpserver mux (newMux, reload, ServeHTTP, search, cache), runtime + HTTPServer object (mode tc)", "pkg/object/pipeline Pipeline (Init, Inherit, Close, Handle)", "pkg/object/trafficcontroller (Create/Apply/Update/Delete Pipeline and TrafficGate, Namespace.GetHandler)",
 			"pkg/filters: ratelimiter, proxy (pools, load balancers, memory cache, resilience wrappers), mock, requestadaptor, responseadaptor, validator, fallback, corsadaptor, builder, headertojson, certextractor", "pkg/supervisor Spec / ObjectEntity", "pkg/util/ratelimiter, pkg/util/ipfilter, pkg/protocols/httpprot, pkg/context"},
-		Stub: []string{"clients (harness tasks, httptest recorders, no sockets)", "backends of the Proxy filter (proxy.fnSendRequest replaced by a scripted backend that can park and, per request script, lets the first attempts fail by transport error / status 503 / answering after 2h while honouring the attempt's context)", "MuxMapper + backend handlers in mode mux", "park/echo filter kind C11Park registered by the harness", "listener of the HTTPServer object (gracenet.ListenHook -> idle listener)",
+		Stub: []string{"clients (harness tasks, httptest recorders, no sockets)", "backends of the Proxy filter (proxy.fnSendRequest replaced by a scripted backend that can park and, per request script, lets the first attempts fail by transport error / status 503 / answering after 2h while honouring the attempt's context)", "MuxMapper + backend handlers in mode mux", "park/echo filter kind C11Park registered by the harness", "listener of the HTTPServer object (gracenet.ListenHook -> idle listener in mode tc, simnet listener in mode rt; in mode rt the hook also injects 'address already in use' bind failures)",
 			"sync / sync/atomic / math/rand of the instrumented files -> simsync / simatomic / simrand (same semantics + gates)"},
 		Assumptions: []string{
 			"oracle = quiescent twins of the same code: one never-updated instance per generation answers every request of the scenario before traffic starts",
@@ -1062,6 +1067,7 @@ func TestVerifC11(t *testing.T) {
 			"mode pipe: a request is compared with the twin of the generation whose Handle it entered; for RateLimiter a 429 is accepted besides the permitted answer (limiter state is inherited); for Proxy any server of the held generation's pool is accepted",
 			"mode pipe, resilience: a request is judged by the spec of the generation whose Handle it entered (attempts = first non-failing attempt, at most maxAttempts; failing = transport error, attempt longer than the pool timeout, status in failureCodes); final status 200 / the backend's 503 / any 5xx for a transport error / any 4xx-5xx for a timeout (the documents name no status); " +
 				"the pool timeout (1h) and a slow attempt (2h) are far apart because stall decisions may add up to 20 min of virtual time anywhere; a tight breaker (window 2, 100%, open 1000h) is judged exactly only while the calls of its (generation, pool) are strictly sequential and the previous generation had no tight breaker on that pool (the statement does not say whether breaker state survives an update), otherwise a 5xx without backend attempt and the normal answer are both accepted; twins get the ample breaker",
+			"mode rt, listen failures: 'applied' for a hot update that arrives while the server is failed means the runtime's fsm has processed the reload event (runtime.spec is the new spec); from the start of a restart-requiring update or of the failing Init until the harness has seen the final net/http server accept a probe connection a refused dial or a connection lost in the accept queue is not judged (the client tries again); recovery is expected within 84 s of virtual time after the port is free (checkFailed period 10 s)",
 			"mode tc: 'applied' for an HTTPServer update means its runtime has processed the reload event (observed by the updater polling the mux instance); a request that overlaps create/delete of its pipeline may get 503 or an answer",
 			"not generated: tracing, globalFilter, HTTPS, mirror pools, service discovery, filters that need a cluster / broker / wasm runtime / remote endpoint (HeaderLookup, Kafka, MQTT kinds, WasmHost, RemoteFilter), Validator basicAuth (real files)",
 		},
